@@ -1234,6 +1234,8 @@ class BinaryOpUGen(BasicOpUGen):
 
     def _optimize_sub(self):
         a, b = self.inputs
+        if a is b:  # Non optimizable edge case (as in the other rewrites).
+            return
 
         if isinstance(b, UnaryOpUGen) and b.operator == 'neg'\
         and len(b._descendants) == 1:
